@@ -7,7 +7,7 @@ import math
 import numpy as np
 from hypothesis import strategies as st
 
-from ..core import SubCheck, Violation, cut, require
+from ..core import HarnessError, SubCheck, Violation, cut, require
 from ..oracles import atmosphere as oatm
 from ..strategies import CHUNK_SIZES, bfloat, block_edge_sizes, harvested_edge_sizes, same_values, log_uniform, near, rel_near, ulp_step
 
@@ -357,6 +357,56 @@ def body_float32(case):
     return labels
 
 
+def _first_call_cases(tier):
+    import os
+
+    seed = int(os.environ.get("VERIF_SEED", "1") or "1")
+    stride = 2 if tier == "quick" else 1
+    for k in range(seed % stride, 56, stride):
+        yield {"k": k, "seed": seed}
+
+
+def body_first_call(case):
+    """The FIRST call of each conversion function in a fresh interpreter, overlapped by a second thread's call at the
+    pre-emption point k (one fresh interpreter per k): both calls return what the independent atmosphere gives. Finds
+    module state that is built lazily on first use and published before it is complete."""
+    import json
+    import subprocess
+    import sys
+
+    rng = np.random.default_rng(case["seed"] * 131 + case["k"])  # enumeration parameters only
+    za = sorted(float(x) for x in rng.uniform(0.0, 100.0, 6)) + [11.0, 47.5]
+    zb = sorted(float(x) for x in rng.uniform(0.0, 100.0, 6)) + [20.5, 71.9]
+    spec = {
+        "targets": [
+            ["nuspacesim.simulation.atmosphere.pressure", "us_std_atm_pressure_from_altitude"],
+            ["nuspacesim.simulation.atmosphere.pressure", "us_std_atm_altitude_from_pressure"],
+            ["nuspacesim.simulation.eas_optical.atmospheric_models", "us_std_atm_pressure_from_altitude"],
+            ["nuspacesim.simulation.eas_optical.atmospheric_models", "us_std_atm_altitude_from_pressure"],
+        ],
+        "a": {"us_std_atm_pressure_from_altitude": za, "us_std_atm_altitude_from_pressure": [oatm.pressure(z) for z in za]},
+        "b": {"us_std_atm_pressure_from_altitude": zb, "us_std_atm_altitude_from_pressure": [oatm.pressure(z) for z in zb]},
+    }
+    r = subprocess.run([sys.executable, "-m", "nssverif.firstcall", str(case["k"])], input=json.dumps(spec), capture_output=True, text=True, timeout=1800)
+    line = next((ln for ln in r.stdout.splitlines() if ln.startswith("NSSVERIF-CHILD ")), None)
+    if line is None:
+        raise HarnessError(f"the child interpreter produced no result (exit {r.returncode}): {r.stderr[-800:]}")
+    labels = set()
+    for res in json.loads(line[len("NSSVERIF-CHILD "):]):
+        mod, fn = res["target"]
+        what = f"{mod.split('.')[-1]}.{fn}: first call of the process suspended after {case['k']} of {res['lines']} lines while a second thread calls it"
+        for who in ("a", "b"):
+            require(res[who + "_exc"] is None, f"{what}: the {'suspended' if who == 'a' else 'overlapping'} call raised {res[who + '_exc']}")
+            xs = spec[who][fn]
+            for x, got in zip(xs, res[who]):
+                want = oatm.pressure(x) if fn.endswith("from_altitude") else oatm.altitude(x)
+                tol = TOL_ORACLE * abs(want) if fn.endswith("from_altitude") else max(TOL_Z, 1e-9 * abs(want))
+                require(abs(got - want) <= tol, f"{what}: the {'suspended' if who == 'a' else 'overlapping'} call returns {got!r} for {x!r}, the independent atmosphere gives {want!r}")
+        if res["reached"]:
+            labels.add("first_call_preempted")
+    return labels
+
+
 INT_DTYPES = ["int8", "int16", "int32", "int64", "uint8", "uint16", "uint32", "uint64", "pyint"]
 
 
@@ -498,6 +548,15 @@ SUBCHECKS = [
         {"quick": 1},
         doc="exhaustive +-8 (quick) / +-64 (thorough) ulp sweep around every tabulated boundary pressure",
         exhaustive=_exh_boundaries_p,
+    ),
+    SubCheck(
+        "first_call_overlap",
+        None,
+        body_first_call,
+        lambda labels: "first_call_preempted" in labels,
+        {"quick": 1},
+        doc="one fresh interpreter per pre-emption point k (0..55; every second one in the quick tier, parity by VERIF_SEED): the first call of each of the four conversion functions is suspended after k lines while a second thread calls it; both results vs the independent atmosphere",
+        exhaustive=_first_call_cases,
     ),
     SubCheck(
         "integer_inputs",
